@@ -262,7 +262,10 @@ class Runner:
     # -------------------------------------------------------------------------------- classification
     def classify(self, status, err, rss, src, d, case, out, sanitized):
         """-> dict(cls, site, detail, line, msg)"""
-        text = err.decode('utf-8', 'replace')
+        full = err.decode('utf-8', 'replace')
+        # the diagnostics echo the offending source line, which can be 100 kB of one character: every regular expression
+        # below runs on a copy with bounded line length (a quadratic `\w+` scan would stall all worker threads)
+        text = '\n'.join(l[:600] for l in full.splitlines()[:3000])
         kind, n = status
         r = {'cls': None, 'site': '', 'detail': '', 'line': None, 'msg': ''}
         if kind == 'timeout':
@@ -333,7 +336,7 @@ class Runner:
             r['site'] = f'rc{n}'
             return r
         lines = text.splitlines()
-        first = lines[0]
+        first = full.split('\n', 1)[0][:8192]
         msg = ''
         for ln in lines[1:]:
             mm = re.match(r'\s*\^ (.*)', ln)
